@@ -5,6 +5,7 @@ import Modbus.Driver.Extract
 import Modbus.Driver.Client
 import Modbus.Driver.Asm
 import Modbus.Driver.Conc
+import Modbus.Driver.Srv
 import Std.Data.HashSet
 import Std.Data.HashMap
 /-
@@ -60,7 +61,10 @@ def dispatch (prop : String) (ts : List String) : Option Family :=
                 match parseLockOp ts with
                 | some op => some { modelOut := "", modelOf := some id, kf := none, expect := op.judge prop,
                                     kind := "lockfacts" }
-                | none => none
+                | none =>
+                  match parseSrvOp ts with
+                  | some op => some { modelOut := op.modelOut, kf := none, expect := op.judge prop, kind := "srv" }
+                  | none => none
 
 structure St where
   lines : Nat := 0
